@@ -20,7 +20,7 @@ import numpy as np
 from common import Ctx, Finding, Outcome, err_class
 
 PROPERTY = "C12"
-LEAN_TARGETS = ["QcelVerif.Props.C12", "QcelVerif.Driver.C12"]
+LEAN_TARGETS = ["QcelVerif.Props.C12", "QcelVerif.Lemmas.QuatSurj", "QcelVerif.Lemmas.RigidMotion", "QcelVerif.Props.C12Full", "QcelVerif.Driver.C12"]
 DRIVER = "QcelVerif/Driver/C12.lean"
 THEOREMS = [
     ("QcelVerif.Kabsch.quatRot_orthogonal", "|q|^2 = 1 -> U(q) U(q)^T = I and U(q)^T U(q) = I for the nine entries written at align.py:544-552 (any commutative ring)"),
@@ -31,7 +31,17 @@ THEOREMS = [
     ("QcelVerif.Kabsch.rmsd2_formula", "||R - C U(q)||^2 = sum|r|^2 + |q|^4 sum|c|^2 - 2 q^T F q (any atoms, any q); N rmsd^2 for unit q"),
     ("QcelVerif.Kabsch.posDef4_sound", "exact fraction-free pivot test positive -> quadratic form >= 0 at every 4-vector"),
     ("QcelVerif.Kabsch.isTopEig_sound", "certificate accepted -> ||q|^2-1| <= delta and p^T F p <= (q^T F q + eps)|p|^2 for every p"),
-    ("QcelVerif.Kabsch.kabsch_optimal_partial", "PARTIAL: certificate accepted -> residual of U(q) <= residual of every rotation U(p)/|p|^2 (p != 0) + 2 eps + delta(2+delta) sum|c|^2; 'every proper rotation' needs surjectivity of quaternions onto SO(3) over R (not formalised)"),
+    ("QcelVerif.Kabsch.kabsch_optimal_partial", "certificate accepted -> residual of U(q) <= residual of every rotation U(p)/|p|^2 (p != 0) + 2 eps + delta(2+delta) sum|c|^2, over every ordered field (incl. Q, where the driver runs); lifted to 'every proper rotation' over R by kabsch_optimal"),
+    ("QcelVerif.Kabsch.quatRot_surjective", "over R: R R^T = I and det R = 1 -> exists q with |q|^2 = 1 and quatRot q = R, for exactly the nine entries of align.py:544-552 (Shepperd construction; all four branches, incl. trace = -1)"),
+    ("QcelVerif.Kabsch.quatRot_surjective_of_sqrt", "the same over every linearly ordered field in which positive elements have square roots"),
+    ("QcelVerif.Kabsch.transpose_mul_of_rot", "R R^T = I and det R = 1 -> R^T R = I (via R = cofactor matrix of R), any commutative ring"),
+    ("QcelVerif.Kabsch.properRot_iff_quat", "over R: (R R^T = I and det R = 1) <-> R = quatRot q for some unit quaternion q"),
+    ("QcelVerif.Kabsch.kabsch_optimal", "FULL over R: certificate accepted -> residual of U(q) <= residual of EVERY proper rotation (orthogonal, det +1) + 2 eps + delta(2+delta) sum|c|^2"),
+    ("QcelVerif.Kabsch.recovery_full", "over R: if some proper rotation superimposes the centred sets exactly, the certified answer has residual <= 2 eps + delta(2+delta) sum|c|^2"),
+    ("QcelVerif.Kabsch.centred_le_motion", "for any matrix U and shift s and equal-length geometries: centred residual of U <= sum_i |r_i - (c_i - s) U|^2 (uncentred, as align_coordinates applies a recipe)"),
+    ("QcelVerif.Kabsch.kabsch_optimal_rigid", "FULL over R: certificate accepted -> centred residual of U(q) <= residual of EVERY proper rigid motion c -> (c - s) R on the uncentred geometries + slack"),
+    ("QcelVerif.Kabsch.kabschAlign_optimal", "the same on the model's output record: head-off not fired and certificate accepted -> res2 <= residual of every proper rigid motion + 2 eps + delta(2+delta) sc2"),
+    ("QcelVerif.Kabsch.recovery_rigid", "over R: if the reference is the concern geometry moved by a proper rotation and a shift, the certified answer has residual <= 2 eps + delta(2+delta) sum|c~|^2"),
     ("QcelVerif.Kabsch.recovery", "if some rotation U(p)/|p|^2 superimposes the centred sets exactly, the certified answer has residual <= 2 eps + delta(2+delta) sum|c|^2"),
     ("QcelVerif.Kabsch.recipe_pointwise", "with T = cbar - U rbar and U orthogonal, (c - T)U - r = (c - cbar)U - (r - rbar): the RMSD B787 recomputes from the recipe is the one Kabsch minimised"),
     ("QcelVerif.Kabsch.centroid_shift_optimal", "for a fixed rotation the centroid-matching shift minimises the residual (completing the square)"),
@@ -42,7 +52,7 @@ THEOREMS = [
     ("QcelVerif.B787.sel_attains_best", "the held recipe is one of the trials and best is exactly that trial's rounded RMSD"),
 ]
 TRUSTED_BASE = [
-    "Lean 4.33 kernel + Mathlib (ring, linear_combination, linarith, nlinarith, field_simp, norm_num); axioms per theorem audited on every run",
+    "Lean 4.33 kernel + Mathlib (ring, linear_combination, linarith, nlinarith, field_simp, norm_num; Real.sqrt from Mathlib.Analysis.Real.Sqrt for the surjectivity theorem); axioms per theorem audited on every run",
     "hand-written models Model/Kabsch.lean (align.py:473-554, models/align.py:70-87) and Model/B787.lean (align.py:143-241, 296-345, 423-431), tied by differential correspondence on the generated stream",
     "numpy.linalg.eigh is NOT modelled and NOT trusted: its eigenvector is captured per call and certified by the proved checker isTopEig (exact rational arithmetic) — accepted certificate => optimality theorem applies to that call",
     "numpy elementwise IEEE arithmetic / np.linalg.norm / np.around / distance_matrix (sqrt): compared against exact rational values under stated tolerances, distance matrices and per-trial rounded RMSDs are inputs of the discrete models",
@@ -52,10 +62,10 @@ ASSUMPTIONS = [
     "weight=None (the only way B787 calls kabsch_align); do_plot off; verbose=0",
     "networkx is absent: algorithm='hungarian_uno' cannot run; wherever the code would ask for it (B787's mirror pre-test hard-codes the default, Molecule.align never forwards `algorithm`) the harness substitutes 'permutative' by wrapping the module-level _plausible_atom_orderings — so candidate generation by Hungarian/Uno is NOT exercised, everything downstream of the candidate list is",
     "permutative search only up to 7 atoms and class sizes <= 4 (cost n!); unrelated pairs are aligned with the fixed map only (the property speaks of a known correspondence)",
-    "geometries of 2-30 atoms, pairwise distance > 0.5 bohr, coordinates within about +-12 bohr before the shift in [-10,10]^3; no 'nearly collinear' (1e-7 off-axis) inputs — exactly collinear, planar, symmetric and generic ones are generated",
+    "geometries of 2-30 atoms, pairwise distance > 0.5 bohr, coordinates within about +-12 bohr before the shift in [-10,10]^3 (pivot block: shift = pv - pv.U, redrawn until inside that cube); no 'nearly collinear' (1e-7 off-axis) inputs — exactly collinear, planar, symmetric and generic ones are generated",
     "'mirror images are matched only when requested' is read in both directions: unrequested -> mirror flag never set (all inputs); requested + chiral generic geometry (third singular value >= 0.3 bohr) -> the mirror match is found (kind oracle:mirror_requested_not_found)",
     "known finding C12-molsalign-truncation: with mols_align truthy the permutation search stops at the first candidate below a_convergence; a deliberate nearly-symmetric block exercises it and the class is matched on the recorded trial RMSDs only",
-    "full optimality over SO(3): proved against every rotation of quaternion form U(p)/|p|^2; surjectivity onto SO(3) is textbook and not formalised; rotation uniqueness for non-collinear sets is checked by the oracle only",
+    "full optimality over SO(3) is proved over R (Props/C12Full.lean: surjectivity of unit quaternions onto SO(3), optimality against every proper rotation and every proper rigid motion); over Q, where the driver executes, the comparison family is the rational rotations U(p)/|p|^2; rotation uniqueness for non-collinear sets is checked by the oracle only",
     "the permutative filter (np.allclose, atol=1.0) is modelled with exact rational comparison; knife-edge inputs (difference within one ulp of the tolerance) are not generated",
 ]
 RULE = (
@@ -63,12 +73,20 @@ RULE = (
     "applied motion = exact rational rotation U(p)/|p|^2 from an integer quaternion (identity and tiny rotations included) x shift in [-10,10]^3 x "
     "atom permutation (<= 7 atoms) x optional mirror, or an unrelated / noisy second geometry) x call route {kabsch_align, B787 fixed map, "
     "B787 permutative, B787 run_mirror, Molecule.scramble(do_test)+Molecule.align} x flags {mols_align, run_to_completion, run_resorting}. "
-    "A case is distinct by (family, n, motion, permutation, route, flags) and non-trivial when the motion is not the identity, or the pair is unrelated/noisy."
+    "Besides independently drawn (rotation, shift) pairs, a 'pivot' block (about a quarter of the cases, all routes and families) ties the shift "
+    "to the geometry, s = pv - pv.U for a non-identity rotation about a point pv: IN PLACE about the molecule's own off-origin centroid (the two "
+    "centroids coincide to ~1e-15 while neither is at the origin), about one of its atoms, about an arbitrary point; copy centred at the origin, "
+    "reference centred at the origin, both; centroids opposite, equal in two Cartesian components, or 1e-8..1e-4 bohr apart; unrelated and noisy "
+    "second geometries are translated into the same centroid relations (shift always kept inside [-10,10]^3). The relation actually seen by the "
+    "implementation is tallied under centroids:* and the class requested under pivot:*. "
+    "A case is distinct by (family, n, motion, permutation, route, flags[, pivot class, first atom of the second geometry]) and non-trivial when "
+    "the motion is not the identity, or the pair is unrelated/noisy."
 )
 LEVEL_TEXT = (
     "proof, partial: ring-identity and ordered-field theorems for every input about the model of kabsch_quaternion/kabsch_align/"
     "align_coordinates and the B787 trial loop; optimality holds for every call whose captured eigenvector passes the proved certificate "
-    "checker (checked on every generated call), against every rotation of quaternion form; eigh itself, the float rounding, surjectivity onto SO(3) "
+    "checker (checked on every generated call), against every proper rotation and every proper rigid motion over R (surjectivity of unit "
+    "quaternions onto SO(3) is proved); eigh itself, the float rounding "
     "and rotation uniqueness are not proved; hungarian_uno candidate generation is not exercised (networkx absent)."
 )
 TECHNIQUE = "Lean 4 proof (ring identities + exact certificate checker soundness) + per-call certification of numpy.linalg.eigh + differential correspondence + Python oracle"
@@ -397,15 +415,92 @@ def unhex(rows):
     return np.array([[float.fromhex(x) for x in row] for row in rows], dtype=float).reshape(-1, 3)
 
 
-def make_case(rng, route, fam, n, *, related="rigid", perm=False, mirror=False, flags=None, maxclass=None, tag=None):
+PIVOTS = ["centroid", "centroid", "centroid", "centroid", "nearcentroid", "atom", "point", "ccentroid0", "rcentroid0", "both0",
+          "opposite", "axis"]
+PIVOTS_PAIR = ["centroid", "centroid", "centroid", "nearcentroid", "ccentroid0", "both0", "opposite", "axis"]
+
+
+def nonidentity_quat(rng):
+    while True:
+        p = gen_quat(rng)
+        if any(p[1:]):
+            return p
+
+
+def tiny_vec(rng):
+    m = rng.choice([1e-8, 1e-6, 1e-4])
+    return np.array([rng.choice([-1.0, 0.0, 1.0, 0.5]) * m for _ in range(3)]) + np.array([m, 0.0, 0.0])
+
+
+def pivot_shift(rng, R, A, pivot):
+    """the shift s of the motion c = r.A + s that realises the requested relation between the two centroids /
+    fixed point; a rotation about a point pv is c = (r - pv).A + pv, i.e. s = pv - pv.A"""
+    cen = R.mean(0)
+    if pivot in ("centroid", "both0"):  # rotation in place about the molecule's own centroid: the centroids coincide
+        return cen - cen @ A
+    if pivot == "nearcentroid":  # centroids differ by 1e-8 .. 1e-4 bohr
+        return cen - cen @ A + tiny_vec(rng)
+    if pivot == "atom":  # rotation about one of the atoms (that atom is a fixed point)
+        pv = R[rng.randrange(len(R))]
+        return pv - pv @ A
+    if pivot == "point":  # rotation about an arbitrary point of space
+        pv = np.array([round(rng.uniform(-5, 5), rng.choice([0, 1, 6])) for _ in range(3)])
+        return pv - pv @ A
+    if pivot == "ccentroid0":  # the copy ends up centred at the origin
+        return -(cen @ A)
+    if pivot == "opposite":  # the copy's centroid is minus the reference's
+        return -cen - cen @ A
+    if pivot == "axis":  # centroids coincide in two Cartesian components, differ in the third
+        e = np.zeros(3)
+        e[rng.randrange(3)] = rng.choice([-3.0, -0.5, 0.25, 2.0, 7.5])
+        return cen - cen @ A + e
+    if pivot == "rcentroid0":  # reference centred at the origin, generic shift
+        return np.array(gen_shift(rng))
+    raise ValueError(pivot)
+
+
+def pair_target_centroid(rng, R, pivot):
+    cen = R.mean(0)
+    if pivot in ("ccentroid0", "both0"):
+        return np.zeros(3)
+    if pivot == "opposite":
+        return -cen
+    if pivot == "nearcentroid":
+        return cen + tiny_vec(rng)
+    if pivot == "axis":
+        e = np.zeros(3)
+        e[rng.randrange(3)] = rng.choice([-3.0, -0.5, 0.25, 2.0])
+        return cen + e
+    return cen
+
+
+def make_case(rng, route, fam, n, *, related="rigid", perm=False, mirror=False, flags=None, maxclass=None, tag=None, pivot=None):
     R = gen_geometry(rng, fam, n)
     labs = ["O", "H", "H", "C", "N", "F"][:n] if fam == "nearsym" else gen_classes(rng, n, maxclass)
     case = {"route": route, "fam": fam, "n": n, "related": related, "runiq": labs, "flags": dict(flags or {}), "R": hexl(R)}
     if tag:
         case["tag"] = tag
+    if pivot:
+        # placement of the reference: centred at the origin, or with its centroid well away from it
+        case["pivot"] = pivot
+        if pivot in ("rcentroid0", "both0"):
+            R = R - R.mean(0)
+        elif related == "rigid" and (float(np.max(np.abs(R.mean(0)))) < 0.3 or rng.random() < 0.5):
+            R = R + np.array([round(rng.uniform(-4, 4), 1) or 1.5 for _ in range(3)])
+        if route == "molecule":  # what Molecule(geometry=...) keeps (float_prep, 8 decimals): the motion is built on those numbers
+            R = np.around(R, 8)
+            R[np.abs(R) < 5.0 ** (-9)] = 0.0
+        R = np.ascontiguousarray(R, dtype=float)
+        case["R"] = hexl(R)
     if related in ("rigid", "noisy", "near"):
         p = gen_quat(rng)
         s = gen_shift(rng)
+        if pivot:
+            for attempt in range(60):
+                p = nonidentity_quat(rng) if attempt < 59 else (50, 1, 2, 1)
+                s = [float(x) for x in pivot_shift(rng, R, quat_rot_exact(p), pivot)]
+                if max(abs(x) for x in s) <= 10.0:  # the quantifier's shift range
+                    break
         if related == "near":
             p = (1, 0, 0, 0)
             # geometry away from the coordinate planes so that rtol*|c| dominates
@@ -426,6 +521,8 @@ def make_case(rng, route, fam, n, *, related="rigid", perm=False, mirror=False, 
         if related == "noisy":
             amp = rng.choice([1e-6, 1e-3, 0.05, 0.3])
             C0 = C0 + np.array([[rng.uniform(-amp, amp) for _ in range(3)] for _ in range(n)])
+            if pivot and pivot != "rcentroid0":  # the noise moved the centroid: put it back where the pivot class wants it
+                C0 = C0 + ((R @ A + np.array(s)).mean(0) - C0.mean(0))
         if mirror:
             C0 = C0.copy()
             C0[:, 1] = -C0[:, 1]
@@ -437,6 +534,14 @@ def make_case(rng, route, fam, n, *, related="rigid", perm=False, mirror=False, 
                      "C": hexl(C), "cuniq": [labs[i] for i in pm]})
     else:  # unrelated second geometry, same classes, fixed map
         C = gen_geometry(rng, rng.choice(["generic", "decimal", "planar", "lattice"]), n)
+        if pivot and pivot != "rcentroid0":  # unrelated geometry translated so that the centroids are in the requested relation
+            tgt = pair_target_centroid(rng, R, pivot)
+            for _ in range(20):
+                C = C - C.mean(0) + tgt
+                if float(np.max(np.abs(C))) <= 12.5:
+                    break
+                C = gen_geometry(rng, rng.choice(["generic", "decimal", "planar", "lattice"]), n)
+            C = np.ascontiguousarray(C - C.mean(0) + tgt, dtype=float)
         case.update({"C": hexl(C), "cuniq": list(labs), "perm": list(range(n)), "mirrored": False})
     return case
 
@@ -504,6 +609,48 @@ def gen_cases(ctx: Ctx):
         mirrored = rng.random() < 0.3 and n >= 4 and fam in ("generic", "planar")
         fl = {"run_mirror": mirrored or rng.random() < 0.15, "run_resorting": rng.random() < 0.2}
         yield make_case(rng, "molecule", fam, n, related="rigid", perm=perm, mirror=mirrored, flags=fl, maxclass=3)
+    # --- O: motions whose shift is tied to the geometry (every other block draws rotation and shift independently, so the
+    #        two centroids are never in any special relation): rotation IN PLACE about the molecule's own off-origin centroid
+    #        (centroids coincide), about an atom / an arbitrary point, copy or reference centred at the origin, centroids
+    #        opposite / equal in two components / 1e-8..1e-4 apart; and unrelated or noisy pairs translated likewise.
+    #        All routes, all families.
+    for _ in range(sc(1400, 5600)):
+        u = rng.random()
+        fam = rng.choice(fams)
+        if u < 0.24:
+            rel = rng.choice(["rigid", "rigid", "unrelated", "noisy"])
+            pv = rng.choice(PIVOTS if rel == "rigid" else PIVOTS_PAIR)
+            yield make_case(rng, "kabsch", fam, rng.randint(2, 30), related=rel, pivot=pv, tag="pivot")
+        elif u < 0.58:
+            rel = rng.choice(["rigid", "rigid", "rigid", "unrelated", "noisy"])
+            pv = rng.choice(PIVOTS if rel == "rigid" else PIVOTS_PAIR)
+            fl = {"atoms_map": True, "mols_align": rng.choice([False, False, True]) if rel == "rigid" else False}
+            yield make_case(rng, "b787", fam, rng.randint(2, 30), related=rel, flags=fl, pivot=pv, tag="pivot")
+        elif u < 0.76:
+            fl = {"atoms_map": False, "algorithm": "permutative",
+                  "mols_align": rng.choice([False, True, True, 1e-5]), "run_to_completion": rng.random() < 0.3}
+            yield make_case(rng, "b787", fam, rng.randint(2, 7), related="rigid", perm=True, flags=fl, maxclass=4,
+                            pivot=rng.choice(PIVOTS), tag="pivot")
+        elif u < 0.86:
+            fam = rng.choice(["generic", "decimal", "generic", "planar", "collinear", "symmetric"])
+            n = rng.randint(4, 6) if fam in ("generic", "decimal") else rng.randint(2, 6)
+            mirrored = rng.random() < 0.7
+            run_mirror = rng.random() < 0.65
+            perm = rng.random() < 0.6
+            sure = (not mirrored) or fam in ("planar", "collinear") or (fam == "generic" and run_mirror)
+            fl = {"atoms_map": not perm, "algorithm": "permutative", "run_mirror": run_mirror,
+                  "mols_align": rng.choice([False, True]) if sure else False,
+                  "run_to_completion": rng.random() < 0.2}
+            yield make_case(rng, "b787", fam, n, related="rigid", perm=perm, mirror=mirrored, flags=fl, maxclass=3,
+                            pivot=rng.choice(PIVOTS), tag="pivot-mirror")
+        else:
+            fam = rng.choice(["generic", "decimal", "planar", "symmetric", "lattice", "collinear"])
+            n = rng.randint(2, 6)
+            perm = rng.random() < 0.5
+            mirrored = rng.random() < 0.3 and n >= 4 and fam in ("generic", "planar")
+            fl = {"run_mirror": mirrored or rng.random() < 0.15, "run_resorting": rng.random() < 0.2}
+            yield make_case(rng, "molecule", fam, n, related="rigid", perm=perm, mirror=mirrored, flags=fl, maxclass=3,
+                            pivot=rng.choice(PIVOTS), tag="pivot")
 
 
 # ------------------------------------------------------------------------------------------------
@@ -869,6 +1016,35 @@ def oracle_recovery(case, case_id, out: Outcome, R, rm, near, slack, rot, shift,
         out.count("recovery:motion_not_unique(collinear/symmetric/other map)")
 
 
+def count_centroid_relation(out: Outcome, R, C, mirrored, rotated):
+    """evidence keys: which relation between the two centroids the implementation was shown (on the very arrays it got)"""
+    cr = R.mean(0)
+    cc = np.array(C, dtype=float).mean(0)
+    if mirrored:
+        cc[1] = -cc[1]
+    d = float(np.max(np.abs(cc - cr)))
+    off = float(np.max(np.abs(cr))) > 1e-3
+    if d < 1e-10:
+        if off and rotated:
+            out.count("centroids:coincide(<1e-10),off-origin,second geometry rotated/unrelated")
+        elif off:
+            out.count("centroids:coincide(<1e-10),off-origin,unrotated")
+        else:
+            out.count("centroids:coincide(<1e-10),both at origin")
+    elif d < 1e-3:
+        out.count("centroids:1e-10..1e-3 apart")
+    elif float(np.max(np.abs(cc))) < 1e-10:
+        out.count("centroids:second geometry centred at origin, reference off-origin")
+    elif not off:
+        out.count("centroids:reference centred at origin, second geometry off-origin")
+    elif float(np.max(np.abs(cc + cr))) < 1e-10:
+        out.count("centroids:opposite")
+    elif int(np.sum(np.abs(cc - cr) < 1e-10)) == 2:
+        out.count("centroids:equal in two components")
+    else:
+        out.count("centroids:generic")
+
+
 def evaluate(case, out: Outcome, pend):
     _install()
     route = case["route"]
@@ -888,7 +1064,14 @@ def evaluate(case, out: Outcome, pend):
     ident = rigid and tuple(case.get("quat", ())) == (1, 0, 0, 0) and all(float.fromhex(x) == 0.0 for x in case["shift"]) \
         and case["perm"] == list(range(n)) and not case["mirrored"] and "rotfloat" not in case
     if not ident:
-        out.nontrivial(repr((route, case["fam"], n, case["related"], case.get("quat"), case.get("shift"), case["perm"], case["mirrored"], sorted(fl.items(), key=str))))
+        key = (route, case["fam"], n, case["related"], case.get("quat"), case.get("shift"), case["perm"], case["mirrored"], sorted(fl.items(), key=str))
+        if "pivot" in case:
+            key = key + (case["pivot"], tuple(case["C"][0]))
+        out.nontrivial(repr(key))
+    if "pivot" in case:
+        out.count("pivot:" + case["pivot"])
+    if route != "molecule":
+        count_centroid_relation(out, R, C, case["mirrored"], rotated=("quat" not in case) or any(case["quat"][1:]) or "rotfloat" in case)
 
     if route == "kabsch":
         with recording() as rec:
@@ -1025,6 +1208,7 @@ def evaluate_molecule(case, case_id, out, pend, R, n):
     Cg = np.array(cmol.geometry)
     if float(np.max(np.abs(Cg - Cexp))) > 1e-10 or list(cmol.symbols) != [syms[i] for i in pm]:
         V.append(Finding("oracle:scramble_applies_motion", case_id, observed=float(np.max(np.abs(Cg - Cexp))), expected="<= 1e-10", detail="scrambled molecule is not the requested rotated/shifted/shuffled copy"))
+    count_centroid_relation(out, Rg, Cg, case["mirrored"], rotated=any(case["quat"][1:]))
     mill = adata["mill"]
     cuniq = list(cmol.symbols)
     c2 = dict(case)
@@ -1075,6 +1259,11 @@ def run(ctx: Ctx) -> Outcome:
     run_cases(ctx, cases, out)
     out.exhaustive = False
     out.notes.append("all blocks sampled from VERIF_SEED; motions are exact rational rotations from integer quaternions")
+    d = out.distribution
+    out.notes.append("pivot block: shift derived from the geometry (rotation in place about the own centroid / an atom / a point, centred copy or "
+                     "reference, opposite / partially equal / nearly equal centroids), rigid, noisy and unrelated pairs on every route; "
+                     f"cases with coinciding off-origin centroids and a rotated or unrelated second geometry this run: "
+                     f"{d.get('centroids:coincide(<1e-10),off-origin,second geometry rotated/unrelated', 0)}")
     out.notes.append(f"networkx available: {HAVE_NX}")
     return out
 
